@@ -396,6 +396,21 @@ def run_shard(shard, tier, seed):
             for name, sch in hspecs:
                 run_input(res, sc, data, name, sch, 'huge-integer', strlimit=True)
             res.see('huge-integer-inputs')
+        # (viii) flat runs of constructed headers whose declared length covers just the next header: read with respect
+        # for the lengths these strings are nested two deep (the inner element overruns its container); a decoder that
+        # descends before checking recurses once per header
+        flat = []
+        for hdr in (b'\xa0\x02', b'\x30\x02', b'\x31\x02', b'\x24\x02', b'\x23\x02', b'\xa0\x00', b'\x30\x00\xa0\x02',
+                    b'\xbf\x1f\x03', b'\x30\x81\x03'):
+            for n in (150, 400, 700, 1400):
+                flat.append(hdr * n)
+        for j, data in enumerate(flat):
+            if j % shard['nshards'] != shard['shard']:
+                continue
+            run_input(res, sc, data, None, None, 'flat-header-run')
+            T_, sch_ = specs[j % len(specs)]
+            run_input(res, sc, data, T_, sch_, 'flat-header-run')
+            res.see('flat-header-runs')
         budget = C.Budget(tier, quick=40.0)
         # (ii) mutated encodings and (iii) grammar trees
         for i in range(shard['n']):
